@@ -1,6 +1,7 @@
 import PharmpyModel.Core.Codec
 import PharmpyModel.C01.Spec
 import PharmpyModel.C01.Advan
+import PharmpyModel.C01.Omega
 open Pharmpy Pharmpy.C01
 
 /-
@@ -15,6 +16,9 @@ open Pharmpy Pharmpy.C01
     (basic ADVANn TRANSm)       → (sym …) | none                 basic PK parameters (spec)
     (entries)                   → ((ADVANn TRANSm) …)            entries of the spec table
     (wiring ADVANn)             → (codeObs specObs codeDose specDose)
+    (omegaparse rec …)          → per record (ok (exact|sq fix same (inits…)) …) | (err kind)     model of OmegaRecord.parse
+    (omegacov rec …)            → ((exact|sq n fix (lower triangle…)) …) | (err kind)            covariance blocks after SAME
+      rec := (diag (v reps sd var fix) …) | (block n sd corr chol fix (v reps) …) | (same);  v := p/q
 
   prog  := (stmt …)
   stmt  := (= X e) | (if c X e) | (block ((c (item …)) …) (else item …)|(noelse)) | (opq n)
@@ -126,6 +130,95 @@ def flowsS : Option (List Flow) → Sexp
   | none => .atom "none"
   | some fs => .list (fs.map (fun f => .list [Sexp.ofNat f.src, Sexp.ofNat f.dst, f.rate.toSexp]))
 
+/-! $OMEGA / $SIGMA -/
+open Pharmpy.C01.Omega
+
+def rat? : Sexp → Option Rat
+  | .atom s =>
+    match s.splitOn "/" with
+    | [p] => p.toInt?.map (fun a => (a : Rat))
+    | [p, q] => do
+      let a ← p.toInt?
+      let b ← q.toNat?
+      if b == 0 then none else some ((a : Rat) / (b : Rat))
+    | _ => none
+  | _ => none
+
+def vrep? : Sexp → Option (Rat × Nat)
+  | .list [v, n] => do some (← rat? v, ← n.asNat?)
+  | _ => none
+
+def orec? : Sexp → Option Rec
+  | .list (.atom "diag" :: items) => do
+    let its ← items.mapM (fun it => match it with
+      | .list [v, n, sd, var, fix] => do
+        some (⟨← rat? v, ← n.asNat?, ← sd.asBool?, ← var.asBool?, ← fix.asBool?⟩ : DiagItem)
+      | _ => none)
+    some (.diag its)
+  | .list (.atom "block" :: n :: sd :: corr :: chol :: fix :: vals) => do
+    some (.block (← n.asNat?) ⟨← sd.asBool?, ← corr.asBool?, ← chol.asBool?⟩ (← fix.asBool?) (← vals.mapM vrep?))
+  | .list [.atom "same"] => some .same
+  | _ => none
+
+def ratAtom (r : Rat) : Sexp :=
+  .atom (if r.den == 1 then toString r.num else toString r.num ++ "/" ++ toString r.den)
+
+def oerr : Err → Sexp
+  | .wrongCount => .list [.atom "err", .atom "wrong-count"]
+  | .zeroNotFixed => .list [.atom "err", .atom "zero-not-fixed"]
+  | .sdAndVar => .list [.atom "err", .atom "sd-and-var"]
+  | .firstSame => .list [.atom "err", .atom "first-same"]
+
+/-- Is this a VARIANCE CORRELATION block (the only form that needs a square root)? -/
+def isVarCorr : Rec → Bool
+  | .block _ f _ _ => f.corr && !f.sd && !f.chol
+  | _ => false
+
+/-- Parse one record; for VARIANCE CORRELATION blocks the entries are replaced by
+    their signed squares (`varCorrSq`) and the block is tagged `sq`. -/
+def parseRecD (r : Rec) : Except Err (List (Bool × Blk)) :=
+  match parseRec (fun v => v) r with
+  | .error e => .error e
+  | .ok bs =>
+    match r with
+    | .block n _ fix items =>
+      if isVarCorr r then .ok [(true, ⟨flatten n (varCorrSq (expand items)), fix, false⟩)]
+      else .ok (bs.map (fun b => (false, b)))
+    | _ => .ok (bs.map (fun b => (false, b)))
+
+def blkS (p : Bool × Blk) : Sexp :=
+  .list [.atom (if p.1 then "sq" else "exact"), Sexp.ofBool p.2.fix, Sexp.ofBool p.2.same,
+         .list (p.2.inits.map ratAtom)]
+
+def omegaParse (recs : List Rec) : Sexp :=
+  .list (recs.map (fun r => match parseRecD r with
+    | .error e => oerr e
+    | .ok bs => .list (.atom "ok" :: bs.map blkS)))
+
+/-- SAME resolution on the tagged blocks (mirrors `covBlocks`). -/
+def omegaCov (recs : List Rec) : Sexp :=
+  let rec go (prev : Option Sexp) (bs : List (Bool × Blk)) (acc : Array Sexp) : Sexp :=
+    match bs with
+    | [] => .list acc.toList
+    | b :: rest =>
+      if b.2.same then
+        match prev with
+        | none => oerr .firstSame
+        | some p => go prev rest (acc.push p)
+      else
+        let cur : Sexp := .list [.atom (if b.1 then "sq" else "exact"), Sexp.ofNat (triangularRoot b.2.inits.length),
+                                 Sexp.ofBool b.2.fix, .list (b.2.inits.map ratAtom)]
+        go (some cur) rest (acc.push cur)
+  let rec all (rs : List Rec) (acc : List (Bool × Blk)) : Except Err (List (Bool × Blk)) :=
+    match rs with
+    | [] => .ok acc
+    | r :: rest => match parseRecD r with
+      | .error e => .error e
+      | .ok bs => all rest (acc ++ bs)
+  match all recs [] with
+  | .error e => oerr e
+  | .ok bs => go none bs #[]
+
 def handle (req : Sexp) : Sexp :=
   match req with
   | .list [.atom "translate", p] =>
@@ -153,6 +246,14 @@ def handle (req : Sexp) : Sexp :=
   | .list [.atom "wiring", .atom a] =>
     let o : Option Nat → Sexp := fun x => match x with | some n => Sexp.ofNat n | none => .atom "none"
     .list [o (codeObs a), o (specObs a), o (codeDose a), o (specDose a)]
+  | .list (.atom "omegaparse" :: recs) =>
+    match recs.mapM orec? with
+    | some rs => omegaParse rs
+    | none => bad
+  | .list (.atom "omegacov" :: recs) =>
+    match recs.mapM orec? with
+    | some rs => omegaCov rs
+    | none => bad
   | .list [.atom "entries"] =>
     .list (specEntries.map (fun p => .list [.atom p.1, .atom p.2]))
   | _ => bad
